@@ -336,6 +336,38 @@ def rule_size_plumbing(facts):
     return r
 
 
+def rule_wrappers(facts):
+    """The "completed" test is the first thing of every round of the decoding core.  Nothing on the way from
+    Stream::write to that core may touch the input before it: the wrappers only build the range decoder and call on."""
+    r = report.RuleResult("C16.R3c", "nothing consumes input between Stream::write and the size test of the decoding core")
+    names = ("decode::stream::Stream::read_data", "DecoderState::process_stream", "DecoderState::process")
+    n = 0
+    for b in facts.bodies:
+        if b.promoted is not None or not short(b.name).split("::<")[0].endswith(names):
+            continue
+        n += 1
+        tm = Terms(b)
+        for blk in b.calls():
+            nm = flow.callee(blk.term) or ""
+            d_ = flow.declared(blk.term) or ""
+            if nm.endswith(("DecoderState::process_mode", "DecoderState::process_stream", "RangeDecoder::from_parts", "Result::map_err",
+                            "Try::branch", "FromResidual::from_residual", "Into::into", "From::from")) or d_.endswith(("Try::branch", "from_residual")):
+                continue
+            consuming = d_.endswith(("fill_buf", "consume", "Read::read", "read_exact")) or "read_u" in d_ or \
+                nm.endswith(("read_partial_input_buf", "read_into", "process_next", "try_process_next", "append_literal", "append_lz"))
+            touches = any(a.ty.k == "ref" and a.ty.mut and (pat.has_arg(tm.of_operand(a), "rangecoder") or pat.has_arg(tm.of_operand(a), "input"))
+                          for a in blk.term.args)
+            if consuming or (touches and blk.term.callee is not None and blk.term.callee.target().local):
+                r.bad("%s|touches-input:%s" % (short(b.name).split("::")[-1], nm.split("::")[-1]), "%s uses the input (%s) before the decoding core "
+                      "has tested whether the declared size is already reached: a completed stream keeps consuming" % (short(b.name), nm or d_),
+                      pat.where(b, blk.idx))
+    r.sites = n
+    r.need("the wrappers read_data / process_stream / process (found %d)" % n, n >= 3)
+    if not r.findings:
+        r.ok("effect", {"wrappers": "only build the range decoder and call the core"})
+    return r
+
+
 def run(ctx, t0):
     facts = ctx.facts()
     tname, field = latch_field(facts)
@@ -347,7 +379,7 @@ def run(ctx, t0):
     else:
         r1, r2 = rule_write(facts, tname, field)
         r2 = rule_finish_flush(facts, tname, field, r2)
-        rules += [r1, r2, rule_completed(facts), rule_size_plumbing(facts)]
+        rules += [r1, r2, rule_completed(facts), rule_size_plumbing(facts), rule_wrappers(facts)]
     expl = ("Static typestate analysis of the Option latch of the streaming decoder over the MIR control-flow graph "
             "(take / refill / None-assignment as transfer functions; checked at every Err source), path checks on "
             "the None arms of write and finish, and the position/shape of the size test of the shared decoding loop. "
